@@ -898,7 +898,15 @@ def run(idx, rep, tier):
     rep.floor('C16.R12', 'tests of critical', len(_cr), 1)
     for _a in _cr:
         _t = [b for b, lab in _gd.succ[_a.id] if lab is True]
-        _ok = bool(_t) and all(_gd.nodes[b].kind == 'raise_stmt' for b in _t)
+        # nothing but the raise follows: no way on to the next option or
+        # to the return, and no further test in between
+        _ok = bool(_t) and all(
+            _gd.nodes[b].kind == 'raise_stmt' or (
+                _gd.nodes[b].kind == 'stmt' and
+                _gd.path(b, _gd.exit, follow_exc=False) is None and
+                not any(x.kind == 'atom' and
+                        _gd.path(b, x.id, follow_exc=False) is not None
+                        for x in _gd.nodes)) for b in _t)
         rep.check(_ok, 'C16.R12',
                   key(_fd, 'unknown critical option always refused'),
                   'critical -> raise KeyImportError',
